@@ -443,6 +443,24 @@ Proof. exact FeatureMapGenMain.gen_fm_gaps_spec. Qed.
 Theorem gen_from_locations : forall (locs : list (Z * Z)) (n : Z), g_from_locations locs n = from_locations locs n.
 Proof. exact FeatureMapGenMain.gen_from_locations. Qed.
 
+(** [make_seq_feature_map]: an alignment span [s, e) goes to the span of the residues its columns hold,
+    [residues before s, residues before e) — whether or not s / e fall on gap columns, inside a gap run or in a trailing
+    gap — and that span lies inside the sequence *)
+Theorem gen_make_seq_feature_map_spec : forall (m : imap) (afm : fmap), WF m ->
+  Forall (fun se : Z * Z => 0 <= fst se <= len m /\ 0 <= snd se <= len m) (real_spans afm) ->
+  g_make_seq_feature_map m afm = Ok (mk_fmap (map (seq_image m) (real_spans afm)) (parent_length m)).
+Proof. exact IndelMapGenMain.gen_make_seq_feature_map_spec. Qed.
+
+Theorem make_seq_feature_map_spec : forall (m : imap) (afm : fmap), WF m ->
+  Forall (fun se : Z * Z => 0 <= fst se <= len m /\ 0 <= snd se <= len m) (real_spans afm) ->
+  make_seq_feature_map m afm = Ok (mk_fmap (map (seq_image m) (real_spans afm)) (parent_length m)).
+Proof. exact IndelMapGenMain.make_seq_feature_map_spec. Qed.
+
+Theorem seq_span_bounds : forall (m : imap) (s e : Z), WF m -> 0 <= s -> s <= e -> e <= len m ->
+  0 <= residues (firstn (Z.to_nat s) (abs m)) <= residues (firstn (Z.to_nat e) (abs m)) /\
+  residues (firstn (Z.to_nat e) (abs m)) <= parent_length m.
+Proof. exact IndelMapMain.seq_span_bounds. Qed.
+
 (** * the hypotheses are satisfiable: concrete instances *)
 Theorem wf_example : WF (from_mask [false; true; true; false; true; false; false]).
 Proof. exact IndelMapOps.wf_example_2. Qed.
